@@ -216,6 +216,13 @@ func Run(rng *rand.Rand, o Opts) *Outcome {
 			MapMetadataFunc:   func(in *res.A) *res.C { return res.NewC(NS, in.Metadata().ID()) },
 			UnmapMetadataFunc: func(c *res.C) *res.A { return res.NewA(NS, c.Metadata().ID()) },
 			TransformFunc: func(ctx context.Context, r controller.Reader, l *zap.Logger, in *res.A, c *res.C) error {
+				if DropToken(in.TypedSpec().Token) {
+					// this input content has no image: the documented way to ask for the output to be removed
+					transforms.Add(1)
+
+					return xerrors.NewTaggedf[qtransform.DestroyOutputTag]("verif: input content %s has no image", in.TypedSpec().Token)
+				}
+
 				b := res.NewB(NS, "tmp")
 				if err := tf(ctx, r, l, in, b); err != nil {
 					return err
@@ -294,6 +301,27 @@ func Run(rng *rand.Rand, o Opts) *Outcome {
 					return nil
 				}, state.WithExpectedPhaseAny())
 				note("update in/%s tok=%s err=%v", id, tok, err)
+			}
+
+			// now and then the content is replaced right away by one that has no image (the output, perhaps just created, has to go)
+			if o.QT && arng.IntN(4) == 0 {
+				n := seq.Add(1)
+				for n%6 != 0 {
+					n = seq.Add(1)
+				}
+
+				dtok := fmt.Sprintf("t%d", n)
+
+				if arng.IntN(2) == 0 {
+					time.Sleep(time.Duration(1+arng.IntN(3)) * time.Millisecond)
+				}
+
+				_, err = st.UpdateWithConflicts(actx, ptr(res.TypeA, id), func(r resource.Resource) error {
+					res.SpecOf(r).Token = dtok
+
+					return nil
+				}, state.WithExpectedPhaseAny())
+				note("update in/%s tok=%s (no image) err=%v", id, dtok, err)
 			}
 		case p < 36:
 			_, err = st.Teardown(actx, ptr(res.TypeA, id))
@@ -457,6 +485,16 @@ func Run(rng *rand.Rand, o Opts) *Outcome {
 	mu.Unlock()
 
 	return out
+}
+
+// DropToken reports whether an input content (token "t<n>") is one for which the queue transform asks for NO output (every sixth).
+func DropToken(tok string) bool {
+	n := 0
+	if _, err := fmt.Sscanf(tok, "t%d", &n); err != nil {
+		return false
+	}
+
+	return n%6 == 0
 }
 
 func mustRegexp(s string) *regexp.Regexp { return regexp.MustCompile(s) }
